@@ -118,6 +118,35 @@ theorem extract_if_returns (s : JobList) (pred : Nat → Job → Bool) (report :
     (s.removeIf pred report).1.Pairwise (· < ·) :=
   removeIf_result s pred report
 
+/-- ★ `remove_if` / `extract_if` with an `FnMut` closure that carries its own state (any state type, any transition):
+    the call is the call with the PURE predicate "the job number is among `selS f st`", where `selS` runs the closure
+    once over the jobs of the table the call starts from, in the order of the job numbers — so every clause of
+    `remove_if_effect` (consistency, slot-wise effect, current / previous job, "a survivor implies a current job")
+    and `extract_if_returns` holds for stateful closures with that predicate; for the counting closure "remove the
+    first `k` jobs that satisfy `p`" the selected job numbers are the first `k` the pure `p` selects. -/
+theorem remove_if_stateful {σ : Type} (s : JobList) (f : σ → Nat → Job → Bool × σ) (st : σ) (report : Bool) (h : Inv s) :
+    s.removeIfS f st report = s.removeIf (fun i _ => (selS f st s.entries 0).contains i) report ∧
+    Inv (s.removeIfS f st report).2 ∧ Consistent (s.removeIfS f st report).2 ∧
+    (∀ i, (s.removeIfS f st report).2.get i = match s.get i with
+        | none => none
+        | some j => if (selS f st s.entries 0).contains i then none
+                    else some (if report then { j with changed := false } else j)) ∧
+    ((∃ i j, s.get i = some j ∧ (selS f st s.entries 0).contains i = false) →
+        ∃ c j, (s.removeIfS f st report).2.currentJob = some c ∧ (s.removeIfS f st report).2.get c = some j) ∧
+    (∀ (p : Nat → Job → Bool) (k : Nat),
+        selS (firstK p) k s.entries 0 = (selS (fun (_ : Unit) i j => (p i j, ())) () s.entries 0).take k) := by
+  have e := removeIfS_eq s f st report
+  obtain ⟨h1, h2, h3, _, _, _, _, h8⟩ := remove_if_effect s (fun i _ => (selS f st s.entries 0).contains i) report h
+  rw [e]
+  exact ⟨rfl, h1, h2, h3, h8, fun p k => selS_firstK p k s.entries 0⟩
+
+/-- ★ the list an early-dropped `extract_if(..).take(n)` yields is the first `n` entries of the list the drained
+    iterator yields (with `extract_if_returns`: the first `n` selected job numbers, ascending) -/
+theorem extract_take_returns (s : JobList) (n : Nat) (pred : Nat → Job → Bool) (report : Bool) :
+    (s.extractTake n pred report).1 = (s.removeIf pred report).1.take n := by
+  have := extractLoopN_take pred report (s.entries.length + 1) n 0 s.len s []
+  simpa [JobList.extractTake, JobList.removeIf] using this
+
 /-- ★ `extract_if(..).take(n)` dropped early ("the remaining jobs are retained in the list"), every `n`, every
     predicate, every consistent table: the table stays consistent, `$!` is unchanged, and the call has worked
     through exactly a prefix of the job numbers — below some `k` every slot is as after `remove_if`, from `k`
@@ -247,6 +276,14 @@ example :
     (s.extractTake 1 RmPred.done.eval true).1 = [0] ∧
     ((s.extractTake 1 RmPred.done.eval true).2.get 2).map (·.changed) = some true ∧
     (s.extractTake 3 RmPred.done.eval true).1 = [0, 2] := by decide
+
+/-- a counting closure on a table with a hole and a finished job: the first two running jobs go, the third stays -/
+example :
+    let s := run JobList.empty [.insert 101 .running, .insert 102 (.exited 0), .insert 103 .running, .insert 104 .running,
+                                .remove 1]
+    selS (firstK RmPred.running.eval) 2 s.entries 0 = [0, 2] ∧
+    (s.removeIfS (firstK RmPred.running.eval) 2 false).2.currentJob = some 3 ∧
+    (s.removeIfS (firstK RmPred.running.eval) 2 false).2.len = 1 := by decide
 
 /-- the budget of `take` counts removals, not visited jobs: a job that is not selected does not use it up; the
     jobs behind the first removal keep their `state_changed` flag, the ones before it are reported -/
